@@ -171,13 +171,18 @@ STHError(e) ==
 (* --------------------------------------------------------------- workers *)
 Asked(w) == wrng[w].e - wrng[w].s + 1
 
-\* inner loop head: context check, then the request goes out
-Request(w) ==
-  /\ wpc[w] = "loop" /\ ~cancelled
+\* the request goes out
+Send(w) ==
+  /\ wpc[w] = "loop"
   /\ wpc' = [wpc EXCEPT ![w] = "req"]
   /\ last' = Log([a |-> "Req", w |-> w, s |-> wrng[w].s, e |-> wrng[w].e])
   /\ UNCHANGED <<cfg, logSize, sth, endIndex, cursor, gpc, slot, wrng, wgot, retries, cnt, delivered,
                  stopped, cancelled, errs, returned>>
+
+\* inner loop head: context check, then the request goes out.  (A cancellation between the check and the request
+\* leads to the same states as one right after the request; FetcherTrace.tla separates the two steps because the
+\* order of the log shows the difference.)
+Request(w) == ~cancelled /\ Send(w)
 
 \* inner loop head with a cancelled context: the worker gives up, the rest of its range is abandoned
 Abort(w) ==
